@@ -334,7 +334,13 @@ def case_ctx(butler, case):
             base = _ctx_result(q, spec)
             out["full"] = _observe(base, spec, spec.get("rawcols"))
             for lim in case.get("limits", []):
-                out["limits"][str(lim)] = _observe(base.limit(lim), spec, spec.get("rawcols"))
+                try:
+                    limited = base.limit(lim)
+                except Exception as e:  # noqa: BLE001  (e.g. a negative limit is refused when the results object is sliced)
+                    err = _err(e)
+                    out["limits"][str(lim)] = {"ids": err, "trace": [], "counts": [err, err, err], "anys": [err, err, err, err], "refused_at": "limit"}
+                    continue
+                out["limits"][str(lim)] = _observe(limited, spec, spec.get("rawcols"))
             if case.get("unordered"):
                 out["unordered"] = _observe(_ctx_result(q, spec, order=False), spec, None)
     except Exception as e:  # noqa: BLE001
